@@ -232,8 +232,9 @@ theorem satBelow_neighbor_eq (f : Nat) (r : Rule) (cs : List Tree) :
 
 end
 
-/-- whenever the `i32` computation of `An+B` does not overflow, it is the mathematical one
-(the index is below `2^31 - 1`, so the `as i32` cast is exact) -/
+/-- (pinned code, before FIX_C11_3; the evaluator model now uses the total `isMatched`, see
+`C20.isMatchedI64_exact`) whenever the `i32` computation of `An+B` does not overflow, it is the
+mathematical one (the index is below `2^31 - 1`, so the `as i32` cast is exact) -/
 theorem isMatchedI32_some (a b : Int) (i : Nat) (x : Bool) (hi : i + 1 < 2 ^ 31)
     (h : isMatchedI32 a b i = some x) : x = isMatched a b i := by
   unfold isMatchedI32 at h
@@ -269,8 +270,6 @@ structure RefHyp (ctx : RCtx) : Prop where
       prevAllOf ctx.root n = earlierSiblings ctx.root n
   /-- node ids identify the nodes of the document -/
   uniq : ∀ a b, InDoc ctx.root a → InDoc ctx.root b → a.id = b.id → a = b
-  /-- no node has `2^31 - 1` children or more (`(index + 1) as i32` is exact) -/
-  sib : ∀ p, InDoc ctx.root p → p.children.length + 1 < 2 ^ 31
 
 section
 variable (ctx : RCtx)
@@ -485,7 +484,6 @@ theorem matchRule_selfForm (f : Nat) (r : Rule) (n : Tree) (env : Env) (m : Tree
         · split at h
           · simp at h
           · split at h
-            · cases h
             · simp at h
             · simp only [Except.ok.injEq, Prod.mk.injEq, Option.some.injEq] at h; exact h.1.symm
       | some rule =>
@@ -497,7 +495,6 @@ theorem matchRule_selfForm (f : Nat) (r : Rule) (n : Tree) (env : Env) (m : Tree
           · split at h
             · simp at h
             · split at h
-              · cases h
               · simp at h
               · split at h
                 · cases h
@@ -1037,18 +1034,8 @@ theorem rr_rule_step (hyp : RefHyp ctx) (f : Nat) (hR : RRule ctx f) (hAl : RAll
         | some index =>
           rw [hidx] at h
           simp only [positionIn, hidx, Option.map_some, Nat.add_sub_cancel] at h ⊢
-          have hb : index + 1 < 2 ^ 31 := by
-            have := (indexById_spec hidx).1
-            have := hyp.sib parent (parentOf_inDoc hpar)
-            omega
-          cases hI32 : isMatchedI32 a b index with
-          | none => rw [hI32] at h; cases h
-          | some x =>
-            rw [hI32] at h
-            have hx := isMatchedI32_some a b index x hb hI32
-            subst hx
-            cases hm : isMatched a b index <;> rw [hm] at h <;>
-              simp only [Except.ok.injEq, Prod.mk.injEq] at h <;> simp [← h.1]
+          cases hm : isMatched a b index <;> rw [hm] at h <;>
+            simp only [Except.ok.injEq, Prod.mk.injEq] at h <;> simp [← h.1]
     | some rule =>
       have hv' : rule.varFree = true := by
         simpa [Rule.varFree] using hv
@@ -1096,35 +1083,25 @@ theorem rr_rule_step (hyp : RefHyp ctx) (f : Nat) (hR : RRule ctx f) (hAl : RAll
           | some index =>
             rw [hidx] at h
             simp only [positionIn, hidx, Option.map_some, Nat.add_sub_cancel] at h ⊢
-            have hb : index + 1 < 2 ^ 31 := by
-              have := (indexById_spec hidx).1
-              have := hyp.sib parent hpD
-              omega
-            cases hI32 : isMatchedI32 a b index with
-            | none => rw [hI32] at h; cases h
-            | some x =>
-              rw [hI32] at h
-              have hx := isMatchedI32_some a b index x hb hI32
-              subst hx
-              cases hm : isMatched a b index with
-              | false =>
-                rw [hm] at h
-                simp only [Except.ok.injEq, Prod.mk.injEq] at h; simp [← h.1]
-              | true =>
-                rw [hm] at h
-                simp only at h
-                split at h
-                · cases h
-                · simp only [Except.ok.injEq, Prod.mk.injEq] at h; simp [← h.1]
-                · next env1 hmr =>
-                  exfalso
-                  have hs := hR _ _ _ _ _ hv' hn hmr k hk
-                  simp only [Option.isSome_none] at hs
-                  obtain ⟨c, hc, hcid⟩ := indexById_mem hidx
-                  obtain ⟨hc1, hc2⟩ := hsub c hc
-                  have := hyp.uniq c n (hpD.child hc1) hn hcid
-                  subst this
-                  rw [hs] at hc2; cases hc2
+            cases hm : isMatched a b index with
+            | false =>
+              rw [hm] at h
+              simp only [Except.ok.injEq, Prod.mk.injEq] at h; simp [← h.1]
+            | true =>
+              rw [hm] at h
+              simp only at h
+              split at h
+              · cases h
+              · simp only [Except.ok.injEq, Prod.mk.injEq] at h; simp [← h.1]
+              · next env1 hmr =>
+                exfalso
+                have hs := hR _ _ _ _ _ hv' hn hmr k hk
+                simp only [Option.isSome_none] at hs
+                obtain ⟨c, hc, hcid⟩ := indexById_mem hidx
+                obtain ⟨hc1, hc2⟩ := hsub c hc
+                have := hyp.uniq c n (hpD.child hc1) hn hcid
+                subst this
+                rw [hs] at hc2; cases hc2
   | all rs kinds =>
     have hv' : Rule.varFreeList rs = true ∧ kinds = none := by
       simpa [Rule.varFree] using hv
@@ -1274,12 +1251,6 @@ def NoZeroWidth (root : Tree) : Prop := ∀ p ∈ root.preorder, sibOrdered p.ch
 
 instance (root : Tree) : Decidable (NoZeroWidth root) :=
   inferInstanceAs (Decidable (∀ p ∈ root.preorder, sibOrdered p.children = true))
-
-/-- no node has `2^31 - 1` children or more -/
-def SmallFanout (root : Tree) : Prop := ∀ p ∈ root.preorder, p.children.length + 1 < 2 ^ 31
-
-instance (root : Tree) : Decidable (SmallFanout root) :=
-  inferInstanceAs (Decidable (∀ p ∈ root.preorder, p.children.length + 1 < 2 ^ 31))
 
 theorem nodup_map_inj_on {α β} (f : α → β) : ∀ (l : List α), (l.map f).Nodup →
     ∀ a b, a ∈ l → b ∈ l → f a = f b → a = b
@@ -1721,7 +1692,7 @@ end
 
 /-- the hypotheses of the equivalence, from decidable facts about the document -/
 theorem RefHyp.of (ctx : RCtx) (hctx : CtxVarFree ctx) (hu : Tree.UniqueIds ctx.root)
-    (hz : NoZeroWidth ctx.root) (hf : SmallFanout ctx.root) : RefHyp ctx where
+    (hz : NoZeroWidth ctx.root) : RefHyp ctx where
   ctxOK := hctx
   pat := by
     intro s p c env hcap
@@ -1731,7 +1702,6 @@ theorem RefHyp.of (ctx : RCtx) (hctx : CtxVarFree ctx) (hu : Tree.UniqueIds ctx.
     · cases o <;> rfl
   nav := fun n hn => nav_eq hu hz n hn
   uniq := fun a b ha hb => uniqueIds_inj hu a b ha hb
-  sib := hf
 
 /-- every member of a successful `all` is (stably) satisfied -/
 theorem allChain_sat (ctx : RCtx) (hyp : RefHyp ctx) (f : Nat) (n : Tree) (hn : InDoc ctx.root n) :
